@@ -189,9 +189,10 @@ class SSH_Socket(ReadBuf, WriteBuf):
         e = None
         while s >= 0:
             s, e = self.recv()
-            if s < 0:
-                continue
             while self.unread_len > 0:
+                # A line that is not terminated yet may have been split by the network; wait for the rest of it.  Once the peer stops sending (s < 0), what is left is parsed as it is.
+                if s >= 0 and b'\n' not in self._buf.getvalue()[self._buf.tell():]:
+                    break
                 line = self.read_line()
                 if len(line.strip()) == 0:
                     continue
